@@ -122,7 +122,7 @@ namespace {
         // (not with the yield_while handler: its waiting tasks poll MPI_Test themselves - the request vector
         // is not used - and while nothing may complete they starve the tasks that still have to post,
         // see C01's known finding)
-        bool const hold = many && mode >= 8;
+        bool const hold_allowed = many;
         if (!ctx.program_from_replay)
         {
             Program p;
@@ -183,6 +183,19 @@ namespace {
         }
         for (int b = 0; b < nbatches; b++)
         {
+            // every batch is its own polling session; in half of the runs a later session uses another completion
+            // mode than the one before (set between the sessions, while nothing is in flight)
+            if (b > 0)
+            {
+                int64_t m2 = ctx.params.set(sfmt("c20.mode_batch%d", b), r.chance(1, 2) ? mode : (int64_t) r.below(32));
+                if (m2 != mode)
+                {
+                    mpi::detail::set_completion_mode((std::size_t) m2);
+                    mode = m2;
+                    probe("completion_mode_changed_between_sessions");
+                }
+            }
+            bool const hold = hold_allowed && mode >= 8;    // (not with the yield_while handler, see above)
             // polling is enabled and disabled in a balanced way around every batch
             mpi::enable_polling polling_scope;
             int posted_before = g_expected_signals;
